@@ -105,7 +105,7 @@ def judgeLatticeI (op : Op) (N : Nat) (A B : Polygon) (r : Option Polygon) : Str
     match r with
     | none => "invalid result-vertex-off-lattice"
     | some R =>
-      if validateLattice N A B R op then s!"valid {N * N}"
+      if validateLattice N A B R op then (if N == 0 then "unjudged no-cell" else s!"valid {N * N}")
       else if !(latticeOK N A && latticeOK N B) then "bad-op"
       else if !(latticeOK N R) then "invalid result-not-lattice-rectilinear"
       else match firstBadCell N A B R op with
@@ -155,7 +155,7 @@ def parseSteps : List String → Option (List (Op × Nat × Nat))
 def judgeChain (N : Nat) (pool : Array Polygon) (steps : List (Op × Nat × Nat)) (rs : List DPoly) (k cells : Nat) :
     String :=
   match steps, rs with
-  | [], _ => s!"valid {cells}"
+  | [], _ => if cells == 0 then "unjudged no-cell" else s!"valid {cells}"
   | (op, i, j) :: steps', r :: rs' =>
     match pool[i]?, pool[j]? with
     | some A, some B =>
@@ -168,17 +168,36 @@ def judgeChain (N : Nat) (pool : Array Polygon) (steps : List (Op × Nat × Nat)
     | _, _ => "bad-op"
   | _ :: _, [] => s!"invalid step {k}: no result"
 
+/-- `pts`: the sample points of the op line followed by the points the harness derived from the RESULT (edge midpoints
+    pushed to both sides, vertex averages), so that area the result has on its own is judged as well -/
 def judgePoints (op : Op) (m : Dy) (pts : List DPt) (a b r : DPoly) : String :=
+  if m.m ≤ 0 then "bad-op margin-not-positive" else
   let emin := minExp [pts] (minExp r (minExp b (minExp a (min 0 m.e))))
   let A := scalePoly emin a
   let B := scalePoly emin b
   let R := scalePoly emin r
   let ps := pts.map fun (x, y) => (⟨x.scaled emin, y.scaled emin⟩ : Pt)
   let mm := m.scaled emin
-  if validatePoints mm A B R op ps then s!"valid {judged mm A B R ps}"
+  if validateGeneral mm A B R op ps then
+    let j := judged mm A B R ps
+    if j == 0 then "unjudged no-sample-point-keeps-the-margin"
+    else if emptyCert op A B then s!"valid {j} empty-certified" else s!"valid {j}"
+  else if !(validateEmpty A B R op) then "invalid nonempty-result-for-certified-empty-region"
   else match firstBadPoint mm A B R op ps with
     | some p => s!"invalid point {showPt p emin} R={b01 (inside R p)} A={b01 (inside A p)} B={b01 (inside B p)}"
     | none => "invalid"
+
+/-- the result record of a points call: `<poly>` optionally followed by `X <k> (<x> <y>)*k` -/
+def parseResultX (rts : List String) : Option (DPoly × List DPt) :=
+  match parsePoly rts with
+  | some (r, []) => some (r, [])
+  | some (r, "X" :: k :: rest) =>
+    match k.toNat? with
+    | some kv => match parsePts kv rest with
+      | some (xs, []) => some (r, xs)
+      | _ => none
+    | none => none
+  | _ => none
 
 def judgeChainLine (ws res : List String) : String :=
   match ws with
@@ -229,9 +248,9 @@ def judge (ws res : List String) : String :=
         | some (pts, rest') =>
           match parseAB rest' with
           | some (a, b) =>
-            match parsePoly rts with
-            | some (r, []) => judgePoints op mv pts a b r
-            | _ => "invalid result-non-finite-or-unparsable"
+            match parseResultX rts with
+            | some (r, xs) => judgePoints op mv (pts ++ xs) a b r
+            | none => "invalid result-non-finite-or-unparsable"
           | none => "bad-op"
         | none => "bad-op"
       | _, _, _ => "bad-op"
